@@ -39,6 +39,8 @@ type Pod struct {
 	UnreachableUntil time.Time
 	FileMode         bool
 	FileText         string // configuration text currently rolled out to this pod's file
+	ReloadFailUntil  time.Time
+	EmptySince       *time.Time // harness' own knowledge of since when the pod scrapes nothing
 }
 
 type Replica struct {
@@ -208,12 +210,35 @@ func (c *Cluster) startPod(p *Pod, now time.Time) error {
 	}
 	prom := p.Prom
 	sc.HeadSeries = prom.Head
-	sc.OnReload = func() { prom.Reload(sc.OutFile, time.Now()) }
+	sc.OnReload = func() {
+		if time.Now().Before(p.ReloadFailUntil) {
+			sc.ReloadErr = fmt.Errorf("prometheus reload failed (injected)")
+			return
+		}
+		sc.ReloadErr = nil
+		prom.Reload(sc.OutFile, time.Now())
+	}
 	p.SC = sc
 	// Prometheus (re)reads the file the sidecar wrote while starting
 	prom.Reload(sc.OutFile, now)
 	p.Running = true
 	c.Net.Handle(p.Host, sc.Service)
+	// since when it is empty: at a start the store's own idle-since is taken over
+	if st, err := sc.GetStatus(); err == nil {
+		if len(st) == 0 {
+			if p.EmptySince == nil {
+				if rt, err := sc.GetRuntime(); err == nil && rt.IdleStartAt != nil {
+					t := *rt.IdleStartAt
+					p.EmptySince = &t
+				} else {
+					t := now
+					p.EmptySince = &t
+				}
+			}
+		} else {
+			p.EmptySince = nil
+		}
+	}
 	return nil
 }
 
